@@ -368,6 +368,55 @@ def ob_copyfile_world():
     return h
 
 
+def ob_copydir_world():
+    """install_subdir(): the real do_copydir over a small source tree (three sibling directories, each empty or with one file, plus a top-level file) with a
+    SYMBOLIC exclusion set: every directory that is not excluded is created (through the DirMaker) and gets its permissions sanitised, nothing below an
+    excluded directory is visited, every non-excluded file is copied to the mirrored place, and nothing else is touched"""
+    def h():
+        import os as _os
+        names = ['a', 'b', 'c']
+        excl_d = [decide(sym_bool('exclude_dir_' + n)) for n in names]
+        has_file = [decide(sym_bool('file_in_' + n)) for n in names]
+        excl_top = decide(sym_bool('exclude_top_file'))
+        excl_inner = decide(sym_bool('exclude_file_in_a'))
+        calls = []
+        created = set()
+
+        def walk(top):
+            dirs = list(names); files = ['top.txt']
+            yield top, dirs, files
+            for d in list(dirs):                     # os.walk is top-down: it honours in-place edits of dirs
+                i = names.index(d)
+                yield _os.path.join(top, d), [], (['in.txt'] if has_file[i] else [])
+        fos = types.SimpleNamespace(walk=walk, path=types.SimpleNamespace(isabs=_os.path.isabs, join=_os.path.join, relpath=_os.path.relpath, normpath=_os.path.normpath, dirname=_os.path.dirname,
+                                                                            islink=lambda p: False, isdir=lambda p: p in created or p == '/D/dst', exists=lambda p: p in created or p == '/D/dst'))
+        saved = MI.os
+        MI.os = fos
+        try:
+            ins = mk_installer(False, None, [])
+            ins.copystat = lambda a, b: calls.append(('copystat', a, b))
+            ins.sanitize_permissions = lambda p, u: calls.append(('sanitize', p))
+            ins.do_copyfile = lambda f, t, **k: (calls.append(('copy', f, t)), True)[1]
+            ins.set_mode = lambda p, m, u: calls.append(('mode', p))
+            dm = types.SimpleNamespace(makedirs=lambda p, **k: (calls.append(('mkdir', p)), created.add(p))[0])
+            excl = ({'top.txt'} if excl_top else set()) | ({'a/in.txt'} if excl_inner else set()), {n for n, e in zip(names, excl_d) if e}
+            ins.do_copydir(types.SimpleNamespace(install_umask=0o022), '/s', '/D/dst', excl, None, dm)
+        finally:
+            MI.os = saved
+        mk = [c[1] for c in calls if c[0] == 'mkdir']; cp = [(c[1], c[2]) for c in calls if c[0] == 'copy']; sn = [c[1] for c in calls if c[0] == 'sanitize']
+        for n, e, hf in zip(names, excl_d, has_file):
+            dst = '/D/dst/' + n
+            check((dst in mk) == (not e), 'a directory is created iff it is not excluded (empty ones too)')
+            check((dst in sn) == (not e), 'every created directory gets its permissions sanitised (install_umask)')
+            inner_excluded = (n == 'a' and excl_inner)
+            check((('/s/%s/in.txt' % n, dst + '/in.txt') in cp) == (hf and not e and not inner_excluded), 'a file is copied iff neither it nor its directory is excluded')
+        check((('/s/top.txt', '/D/dst/top.txt') in cp) == (not excl_top), 'top-level file')
+        check(len(mk) == len(set(mk)) and len(cp) == len(set(cp)), 'nothing is created or copied twice')
+        check(all(p.startswith('/D/dst/') for p in mk + [t for _, t in cp] + sn), 'only the destination tree is touched')
+        cover('done')
+    return h
+
+
 def osp(name):
     """os.path functions usable on symbolic strings in the symbolic run, the real ones natively"""
     import os
@@ -390,6 +439,7 @@ def obligations(tier):
                           labels=('declared', 'umask', 'preserve', 'owner', 'perms-rejected'), max_paths=5000000))
     out.append(Obligation('selection', ob_selection(), dict(tags='none | runtime | runtime,devel', skip_subprojects='none | sub | *', entry='4 tags x 3 subprojects', dry_run='symbolic'),
                           labels=('admitted', 'skipped')))
+    out.append(Obligation('copydir-world', ob_copydir_world(), dict(tree='3 sibling directories (empty or one file) + a top-level file', exclude_directories='symbolic subset', exclude_files='symbolic subset'), labels=('done',)))
     out.append(Obligation('copyfile-world', ob_copyfile_world(), dict(destination='absent | file | directory', source='file | live symlink | dangling symlink | absent', dry_run='symbolic', destination_dir='exists or not'),
                           labels=('installed', 'dry-run', 'refused')))
     out.append(Obligation('symlink-over-existing', ob_symlink_world(), dict(pre_existing='absent | live symlink | dangling symlink | regular file', model='exists follows links, lexists does not, symlink() fails on an existing name'),
